@@ -2,7 +2,7 @@
 import re
 
 import anchors
-from core import (BA, call_matches, callee_paths, op_local, op_place, op_const, const_int, const_str, taint,
+from core import (BA, FAL, call_matches, callee_paths, op_local, op_place, op_const, const_int, const_str, taint,
                   place_fields, rvalue_places, field_writes, field_mut_refs, field_reads)
 from facts import strip_generics
 from rules import common
@@ -271,9 +271,12 @@ def run(ctx):
         chsw = positive_switches(rel, R.ch)
         if len(chsw) == 1 and per_write and incs:
             sw, t_t, f_t = chsw[0]
-            ok = (all(rba.edge_dominates((sw, f_t), i) for i in incs)
-                  and all(rba.edge_dominates((sw, t_t), i) for i in decs_ch)
-                  and paired_per_pass(rba, decs_my, sorted(incs | set(decs_ch)), list(wt) + rba.returns()))
+            # (over feasible paths: the cheat test may sit in a helper that returns whether it cancelled one - spliced in, its
+            # bool result is a constant on each side and decides the caller's branch)
+            rfa = FAL.of(rel)
+            ok = (all(rfa.edge_dominates((sw, f_t), i) for i in incs)
+                  and all(rfa.edge_dominates((sw, t_t), i) for i in decs_ch)
+                  and paired_per_pass(rfa, decs_my, sorted(incs | set(decs_ch)), list(wt) + rba.returns()))
             if ok:
                 det = "per released token: my_tokens -= 1 always; cheats -= 1 on the cheat side; shared count += 1 exactly on the other side"
         if not ok and len(rups) == 2 and len(decs_my) == 1 and len(decs_ch) == 1:
